@@ -11,6 +11,9 @@ def check(ctx):
     ctx.rule("C17.K5", "the observer's __exit__ sets the done event then joins its update thread; run holds it in one with")
     ctx.rule("C17.K6", "an exception on the calling thread while the pool is still starting its workers (the first worker is already executing calls) releases the started workers - stop flag, sentinels - before they are joined")
     ctx.assume("an interrupt is considered at every point of the calling thread between the first thread start and the return of run; a second interrupt during cleanup is not")
+    ctx.rule("C17.K7", "the engine evaluated as a whole with KeyboardInterrupt raised out of queue.join() after 1 or 2 items, or out of Thread.start while the workers are being started (every small multigraph, scheduler, with and without recorded failures): no call starts afterwards, every worker gets a sentinel and exits, every thread is joined, and KeyboardInterrupt - not the recorded failure - comes out")
+    from .engineeval import rule_engine_evaluated
+    ctx.run(rule_engine_evaluated, "C17.K7", None, ("hang", "joined", "interrupt-propagates", "interrupt-stops"), kinds=("interrupt", "startup"))
     r = E.discover(ctx.model)
     rr = R.discover(ctx.model, r)
     ctx.run(E.rule_interrupt_cleanup, "C17.K1", r)
